@@ -189,12 +189,13 @@ def itemProblems (it : Str) : List Problem :=
   | .ok (lo, hi, _) =>
     if hi - lo + 1 > RANGE_LIMIT then [.tooMany] else []
 
-/-- the item is within the limits but one of its bounds does not fit 64 bits: the property text
-    is silent about it (admissible: refuse it, or expand it exactly) -/
+/-- the item is within the limits but one of its bounds reaches 2^64-1, the largest value of the
+    implementation's number type (which it needs as a sentinel), or lies beyond it: the property
+    text is silent about it (admissible: refuse it, or expand it exactly) -/
 def itemNote64 (it : Str) : Bool :=
   match readItem it with
   | .error _ => false
-  | .ok (lo, hi, _) => hi - lo + 1 ≤ RANGE_LIMIT && hi ≥ 2 ^ 64
+  | .ok (lo, hi, _) => hi - lo + 1 ≤ RANGE_LIMIT && hi + 1 ≥ 2 ^ 64
 
 def itemNames (it : Str) : List Str :=
   match readItem it with
